@@ -65,6 +65,7 @@ func hostilePath(rng *rand.Rand) []byte {
 func genC07(rng *rand.Rand, c *Case) {
 	c.Cfg["policy"] = 3
 	c.Cfg["forks"] = rng.Intn(2)
+	c.Cfg["nest"] = 16 // deeper than any chain of ".." the hostile grammar can produce
 	n := 6 + rng.Intn(30)
 	kinds := []string{"list", "info", "setinfo", "delete", "move", "mkdir", "alias", "download", "upload", "fldr-download", "fldr-upload", "newuser", "renameuser", "deluser", "setuser"}
 	for i := 0; i < n; i++ {
@@ -76,12 +77,12 @@ func runC07(w *World) {
 	w.AddAccount("guest", "Guest", "", rp.AllAccess().With(rp.PNoAgreement))
 	w.WriteFile("Users/admin.yaml", rp.AccountYAML("admin", secretMark+"-admin-name", HashPw("zz"), rp.AllAccess(), ""))
 	w.WriteFile("secret-"+canaryMark+".txt", "config secret "+secretMark)
-	sandbox := filepath.Join(w.Dir, "sandbox")
+	sandbox := w.Sandbox
 	must(os.WriteFile(filepath.Join(sandbox, "canary-"+canaryMark+".txt"), []byte("sibling "+secretMark), 0644))
 	must(os.MkdirAll(filepath.Join(sandbox, "canarydir-"+canaryMark), 0755))
 	must(os.WriteFile(filepath.Join(sandbox, "canarydir-"+canaryMark, "inner.txt"), []byte("inner "+secretMark), 0644))
 	must(os.WriteFile(filepath.Join(sandbox, "canarydir-"+canaryMark, "name-"+secretMark+".txt"), []byte("x"), 0644))
-	must(os.WriteFile(filepath.Join(w.Dir, "outer-"+canaryMark+".txt"), []byte("outer "+secretMark), 0644))
+	must(os.WriteFile(filepath.Join(filepath.Dir(sandbox), "outer-"+canaryMark+".txt"), []byte("outer "+secretMark), 0644))
 	must(os.MkdirAll(filepath.Join(w.FileRoot, "sub", "deep"), 0755))
 	must(os.MkdirAll(filepath.Join(w.FileRoot, "Uploads"), 0755))
 	must(os.WriteFile(filepath.Join(w.FileRoot, "file.txt"), []byte("inside the root"), 0644))
@@ -91,8 +92,9 @@ func runC07(w *World) {
 	// everything outside the file root and the accounts directory must never change
 	outside := func() map[string]string {
 		m := SnapshotTree(w.Dir)
+		rel, _ := filepath.Rel(w.Dir, w.Sandbox)
 		for k := range m {
-			if hasPrefixAny(k, "sandbox/root/", "sandbox/config/Users/", "crashimg") || k == "sandbox/root" || k == "sandbox/config/Users" {
+			if hasPrefixAny(k, rel+"/root/", rel+"/config/Users/") || k == rel+"/root" || k == rel+"/config/Users" {
 				delete(m, k)
 			}
 		}
